@@ -24,6 +24,9 @@ def x86_queries(tier):
             cs = cases[i:i + chunk]
             qs.append(Query("x86/%s/c%d" % (k, i // chunk), R, dict(kernel=k, cases=cs), core=(i == 0), family="x86/" + KERNELS[k][0],
                             weight=sum(c[0] + 50 for c in cs)))
+    for k in sorted(KERNELS):
+        qs.append(Query("x86/%s/huge-len-probe" % k, "harness.C04.x86:crc_huge_probe", dict(kernel=k, lows=[0, 17, 300], off=1, budget=12000),
+                        core=False, family="x86/huge-len-probe", weight=40))
     # Adler-32 assembly kernels, bit-vector domain: only the scalar path (len < 32) is decidable by bit-blasting
     for k in ("adler32_sse", "adler32_avx2_4"):
         lens = list(range(0, 32))
